@@ -314,4 +314,37 @@ example : matchStack [.radiotap] [] = .ok false ∧ matchStack [.radiotap] [0, 0
     matchStack [.radiotap, .raw] [0, 0, 8, 0, 0, 0, 0, 0] = .ok true := by decide
 example : rdN "x" [1, 2, 3] 2 2 = .fault "x" 4 3 := by decide
 
+/-! ### known finding KF-C14-5: the reserved octet of a fragment header -/
+
+/-- **Full statement** (RFC 8200 §4.5 to the letter: the reserved octet of a fragment header is "ignored on
+    reception").  Wherever a receiver's walk over the reply's extension headers arrives at an upper-layer header, the
+    loop of `IPv6::matches_response` arrives at the same octets. -/
+def walk_follows_rfc8200 : Prop :=
+  ∀ (f : Nat) (cur : UInt8) (b : Bytes) (p : UInt8) (b' : Bytes),
+    skipExtsRFC f cur b = some (p, b') → isExtHdr p = false → walkExt f cur b = .ok (some b')
+
+/-- It does not hold: the loop takes the reserved octet for a length.  A first-fragment header with reserved = 1 in
+    front of an 8-octet ICMPv6 echo reply: the receiver of RFC 8200 arrives at the echo reply, the loop behind it
+    (replayed on the real code: corpus/C14/regress.ops, `#corpus:v6-fragment-reserved-octet-set…`). -/
+theorem walk_follows_rfc8200_fails : ¬ walk_follows_rfc8200 := by
+  intro h
+  have := h 16 44 [58, 1, 0, 0, 0, 0, 0, 1, 129, 0, 0, 0, 0x12, 0x34, 0, 7] 58 [129, 0, 0, 0, 0x12, 0x34, 0, 7] (by decide) (by decide)
+  revert this
+  decide
+
+/-- **Partial**: it holds for every reply on whose chain no whole fragment header has its reserved octet set
+    (`fragReservedSet`, decidable) — that is every reply of a sender conforming to RFC 8200 ("initialized to zero for
+    transmission"). -/
+theorem walk_follows_rfc8200_partial (f : Nat) (cur : UInt8) (b : Bytes) (p : UInt8) (b' : Bytes)
+    (hex : fragReservedSet f cur b = false) (h : skipExtsRFC f cur b = some (p, b')) (hp : isExtHdr p = false) :
+    walkExt f cur b = .ok (some b') := by
+  rw [skipExtsRFC_eq f cur b hex] at h
+  exact walkExt_of_skipExts f cur b p b' h hp
+
+/-- the excluded region is not everything: the chain of `exReply6` (hop-by-hop, first fragment, destination options) -/
+example : fragReservedSet 65 0 ((serR (exReply6 [0x12, 0x34])).drop 62) = false ∧
+    (skipExtsRFC 65 0 ((serR (exReply6 [0x12, 0x34])).drop 62)).isSome = true := by decide
+/-- and the witness of the refutation is inside it -/
+example : fragReservedSet 16 44 [58, 1, 0, 0, 0, 0, 0, 1, 129, 0, 0, 0, 0x12, 0x34, 0, 7] = true := by decide
+
 end Tins.Props.C14
